@@ -28,7 +28,39 @@ def _scenario(name):
     return importlib.import_module('txsim.scenarios.' + name)
 
 
+RUN_TIMEOUT = 60
+
+
+class RunTimeout(BaseException):
+    pass
+
+
+def _install_run_timeout():
+    import signal
+
+    def onalarm(signum, frame):
+        raise RunTimeout()
+    signal.signal(signal.SIGALRM, onalarm)
+    _install_run_timeout.on = True
+
+
+_install_run_timeout.on = False
+
+
 def execute(prop, scenario, params, seed=None, replay=None, gates=()):
+    if not _install_run_timeout.on:
+        return _execute(prop, scenario, params, seed, replay, gates)
+    import signal
+    signal.alarm(RUN_TIMEOUT)
+    try:
+        return _execute(prop, scenario, params, seed, replay, gates)
+    except RunTimeout:
+        raise HarnessError('run exceeded %ds wall (seed=%r)' % (RUN_TIMEOUT, seed))
+    finally:
+        signal.alarm(0)
+
+
+def _execute(prop, scenario, params, seed=None, replay=None, gates=()):
     """
     One simulated execution.  Returns the Sim (violation recorded in
     sim.violation).  Raises HarnessError for bugs in the machinery.
@@ -52,13 +84,22 @@ def execute(prop, scenario, params, seed=None, replay=None, gates=()):
                 raise HarnessError('recursion: %s' % e)
             except Exception as e:
                 tb = traceback.extract_tb(e.__traceback__)
-                where = tb[-1].filename if tb else ''
-                if where.startswith(os.path.realpath(env.REPO) + os.sep) or where.startswith(env.REPO + os.sep):
-                    # raised by the code under test straight into an API call
+                # innermost frame that is neither a third-party library nor the stdlib decides:
+                # code under test => the API call raised (violation); harness code => harness error
+                repo = os.path.realpath(env.REPO) + os.sep
+                where = None
+                for fr in reversed(tb):
+                    fn = os.path.realpath(fr.filename)
+                    if fn.startswith(repo):
+                        where = fr
+                        break
+                    if fn.startswith(ROOT + os.sep):
+                        break
+                if where is not None:
                     if sim.violation is None:
                         sim.violation = ('%s.unexpected-exception-%s' % (prop, type(e).__name__),
-                                         'API call raised %s: %s (at %s:%s)' % (
-                                             type(e).__name__, e, os.path.basename(where), tb[-1].lineno))
+                                         'API call raised %s: %s (through %s:%s %s)' % (
+                                             type(e).__name__, e, os.path.basename(where.filename), where.lineno, where.name))
                         sim.log('VIOLATION', *sim.violation)
                 else:
                     raise HarnessError('scenario %s crashed: %s' % (
@@ -80,28 +121,28 @@ def gates_for_index(prop, index, share=6):
     return (g[(index // share) % len(g)],)
 
 
-def _unit(prop, spec, params, verif_seed, index):
-    """run one unit (base run + its variants); returns list of (sim, params, gates)"""
+def _unit(prop, spec, params, verif_seed, index, deadline=None):
+    """generator: run one unit (base run, then its variants); yields (sim, params, gates, seed)"""
     scenario = spec['scenario']
     seed = splitmix64(verif_seed, prop, index)
     gates = gates_for_index(prop, index)
-    out = []
     sim = execute(prop, scenario, params, seed=seed, gates=gates)
-    out.append((sim, params, gates, seed))
+    yield (sim, params, gates, seed)
     mod = _scenario(scenario)
     if hasattr(mod, 'variants') and sim.violation is None:
         for vp in mod.variants(sim, params):
+            if deadline is not None and time.time() > deadline:
+                return
             p2 = dict(params)
             p2.update(vp)
-            s2 = execute(prop, scenario, p2, seed=seed, gates=gates)
-            out.append((s2, p2, gates, seed))
-    return out
+            yield (execute(prop, scenario, p2, seed=seed, gates=gates), p2, gates, seed)
 
 
 def _worker(args):
     prop, spec, params, verif_seed, lo, hi, recheck_every, wall_deadline = args
     faulthandler.enable()
     env.prepare()
+    _install_run_timeout()
     res = dict(runs=0, units=0, steps=0, sim_time=0.0, probes={}, faults={}, fps=set(),
                nontrivial=0, violations=[], samples=[], rechecks=0, mismatches=[], harness=[],
                lo=lo, hi=hi, done=lo, cells=set())
@@ -109,16 +150,19 @@ def _worker(args):
     for index in range(lo, hi):
         if time.time() > wall_deadline:
             break
-        try:
-            runs = _unit(prop, spec, params, verif_seed, index)
-        except HarnessError as e:
-            res['harness'].append((index, str(e)))
-            res['done'] = index + 1
-            if len(res['harness']) > 3:
-                break
-            continue
+        first = None
+        it = _unit(prop, spec, params, verif_seed, index, wall_deadline)
         res['units'] += 1
-        for sim, p, gates, seed in runs:
+        while True:
+            try:
+                sim, p, gates, seed = next(it)
+            except StopIteration:
+                break
+            except HarnessError as e:
+                res['harness'].append((index, str(e)))
+                break
+            if first is None:
+                first = (sim.digest(), p, gates, seed)
             res['runs'] += 1
             res['steps'] += sim.steps
             res['sim_time'] += sim.now
@@ -143,12 +187,16 @@ def _worker(args):
             if len(res['samples']) < 2 and sim.violation is None and (sim.faults or sim.probes):
                 res['samples'].append(dict(index=index, seed=seed, gates=list(gates),
                                            trace=render_trace(sim, limit=60)))
-        if recheck_every and index % recheck_every == 0:
-            sim0 = runs[0][0]
-            again = execute(prop, spec['scenario'], runs[0][1], seed=runs[0][3], gates=runs[0][2])
-            res['rechecks'] += 1
-            if again.digest() != sim0.digest():
-                res['mismatches'].append(index)
+        if len(res['harness']) > 3:
+            break
+        if recheck_every and index % recheck_every == 0 and first is not None:
+            try:
+                again = execute(prop, spec['scenario'], first[1], seed=first[3], gates=first[2])
+                res['rechecks'] += 1
+                if again.digest() != first[0]:
+                    res['mismatches'].append(index)
+            except HarnessError as e:
+                res['harness'].append((index, str(e)))
         res['done'] = index + 1
     res['fps'] = list(res['fps'])
     res['cells'] = list(res['cells'])
@@ -347,6 +395,11 @@ def run_check(prop, spec, tier, verif_seed, workers=None):
             agg['harness'].append((-1, 'pool timeout: %r' % (e,)))
             for f in futs:
                 f.cancel()
+            for proc in list(getattr(pool, '_processes', {}).values()):
+                try:
+                    proc.kill()
+                except Exception:
+                    pass
 
     # --- triage -----------------------------------------------------------
     exit_code = 0
